@@ -18,7 +18,7 @@ theorem canon_idem (c : Codec V) (hl : c.Lawful) (s t : List Char) (h : canon c 
   | none => simp [hd] at h
   | some v =>
     simp only [hd, Option.bind_some] at h
-    rw [hl v t h]; exact h
+    rw [hl.1 v t h]; exact h
 
 /-- **valid input: every level writes the same text up to canonical spelling** (at level 0 a delayed
     datatype is written in its input spelling until it is read: the `lazy-spelling` finding) -/
@@ -89,47 +89,64 @@ theorem valid_never_rejected (c : Codec V) (hl : c.Lawful) (x : Input V) (hx : v
   · cases x with
     | raw s =>
       simp only [valid] at hx
-      simp only [getF]
       cases hd : c.decode s with
       | none => simp [hd] at hx
-      | some v => simp
-    | val v => simp only [valid] at hx; simp only [getF]; split <;> simp [hx]
+      | some v =>
+        have hu := hl.2 s v hd
+        simp only [getF]
+        split
+        · simp [hd]
+        · split <;> simp [hd, hu]
+    | val v =>
+      simp only [valid] at hx
+      simp only [getF]
+      cases he : c.encode v with
+      | none => simp [he] at hx
+      | some t => simp
 
-/-- C10: **reading a field never changes its canonical written form**, and reading twice gives the same -/
-theorem get_preserves_canon (c : Codec V) (hl : c.Lawful) (k : Nat) (x : Cell V) (v : V) (x' : Cell V)
-    (h : getF c k x = some (v, x')) :
-    (writeF c k x').bind (canon c) = (writeF c k x).bind (canon c) ∧ getF c k x' = some (v, x') ∨
-    ((writeF c k x').bind (canon c) = (writeF c k x).bind (canon c) ∧ (c.encode v).isSome = false) := by
+/-- C10: **reading a valid field never changes its canonical written form**, at any level -/
+theorem get_preserves_canon (c : Codec V) (hl : c.Lawful) (k : Nat) (x x' : Cell V) (hx : valid c x = true)
+    (h : getF c k x = some x') :
+    (writeF c k x').bind (canon c) = (writeF c k x).bind (canon c) := by
   cases x with
   | raw s =>
-    simp only [getF] at h
+    simp only [valid] at hx
     cases hd : c.decode s with
-    | none => simp [hd] at h
+    | none => simp [hd] at hx
     | some w =>
-      simp only [hd, Option.map_some, Option.some.injEq, Prod.mk.injEq] at h
-      obtain ⟨rfl, rfl⟩ := h
-      have hw : writeF c k (.raw s) = some s := by
-        simp only [writeF]; split <;> simp [hd]
-      cases he : c.encode w with
-      | none => right; simp [writeF, hw, he, canon, hd]
-      | some t =>
-        left
-        refine ⟨?_, ?_⟩
-        · simp only [writeF, he, hw, Option.bind_some, canon, hd]
-          rw [hl w t he]; simp [he]
+      have hu := hl.2 s w hd
+      have hw : writeF c k (.raw s) = some s := by simp only [writeF]; split <;> simp [hd]
+      simp only [getF] at h
+      split at h
+      · split at h
+        · cases h
+        · cases h; rfl
+      · have hv : x' = .val w := by
+          split at h <;> simp_all
+        subst hv
+        cases he : c.encode w with
+        | none => simp [writeF, hw, he, canon, hd]
+        | some t =>
+          simp only [writeF, he, hw, Option.bind_some, canon, hd]
+          rw [hl.1 w t he]; simp [he]
           simp [canon, hd, he]
-        · simp only [getF]; split <;> simp [he]
   | val w =>
     simp only [getF] at h
-    left
     split at h
-    · split at h
-      · cases h; refine ⟨rfl, ?_⟩; simp only [getF]; simp_all
-      · cases h
-    · cases h; refine ⟨rfl, ?_⟩; simp only [getF]; rename_i hk; simp [hk]
+    · cases h
+    · cases h; rfl
+
+/-- reading a decoded field changes nothing at all -/
+theorem get_val_noop (c : Codec V) (k : Nat) (w : V) (x' : Cell V) (h : getF c k (.val w) = some x') :
+    writeF c k x' = writeF c k (.val w) := by
+  simp only [getF] at h
+  split at h
+  · cases h
+  · cases h; rfl
 
 -- ---------------------------------------------------------------- lawful instances
 theorem intCodec_lawful : intCodec.Lawful := by
+  refine ⟨?_, fun s v h => h⟩
   intro i s h
   obtain ⟨t, he, _, hdec⟩ := C20.int_roundtrip i
   simp only [intCodec] at h ⊢
@@ -137,6 +154,7 @@ theorem intCodec_lawful : intCodec.Lawful := by
   simp [hdec]
 
 theorem strCodec_lawful : strCodec.Lawful := by
+  refine ⟨?_, fun s v h => h⟩
   intro t s h
   simp only [strCodec, Field.encode] at h ⊢
   split at h
@@ -147,7 +165,64 @@ theorem strCodec_lawful : strCodec.Lawful := by
     subst he; simp [hdec]
   · cases h
 
+theorem unhex_upper (s : List Char) (h : ∀ c ∈ s, Field.isHex c = true) :
+    (s.map fun c => if 'a' ≤ c && c ≤ 'f' then Char.ofNat (c.toNat - 32) else c) = s := by
+  conv => rhs; rw [← List.map_id s]
+  apply List.map_congr_left
+  intro c hc
+  have := h c hc
+  have hnot : ('a' ≤ c && c ≤ 'f') = false := by
+    simp only [Field.isHex, Bool.or_eq_true, Bool.and_eq_true, decide_eq_true_eq] at this
+    rw [Bool.eq_false_iff]; intro hh
+    simp only [Bool.and_eq_true, decide_eq_true_eq] at hh
+    rcases this with ⟨_, h2⟩ | ⟨_, h2⟩
+    · exact absurd (Char.le_trans hh.1 h2) (by decide)
+    · exact absurd (Char.le_trans hh.1 h2) (by decide)
+  simp [hnot]
+
+theorem unhex_isHex : ∀ (s : List Char) (bs : List Nat), Field.unhex s = some bs → ∀ c ∈ s, Field.isHex c = true
+  | [], _, _ => by intro c hc; cases hc
+  | [_], _, h => by simp [Field.unhex] at h
+  | a :: b :: r, bs, h => by
+    simp only [Field.unhex] at h
+    split at h
+    · rename_i hab
+      simp only [Bool.and_eq_true] at hab
+      cases hr : Field.unhex r with
+      | none => rw [hr] at h; simp at h
+      | some t =>
+        intro c hc
+        simp only [List.mem_cons] at hc
+        rcases hc with rfl | rfl | hc
+        · exact hab.1
+        · exact hab.2
+        · exact unhex_isHex r t hr c hc
+    · cases h
+
 theorem bytesCodec_lawful : bytesCodec.Lawful := by
+  refine ⟨?_, ?_⟩
+  rotate_left
+  · intro s v h
+    simp only [bytesCodec] at h ⊢
+    cases hd : Field.decode 'H' s with
+    | none => simp [hd] at h
+    | some tv =>
+      cases tv <;> simp [hd] at h
+      subst h
+      rename_i bs
+      simp only [Field.decode] at hd
+      split at hd
+      · rename_i hacc
+        cases hu : Field.unhex s with
+        | none => simp [hu] at hd
+        | some b2 =>
+          simp [hu] at hd; subst hd
+          have hne : s.isEmpty = false := by
+            cases s with
+            | nil => simp [Field.accept, Grammar.re, Grammar.hexdig, RE.accepts, RE.plus, RE.nullable] at hacc
+            | cons _ _ => rfl
+          simp only [hne, Bool.false_eq_true, if_false, unhexAny, unhex_upper s (unhex_isHex s _ hu), hu]
+      · cases hd
   intro b s h
   simp only [bytesCodec, Field.encode] at h ⊢
   split at h
